@@ -252,6 +252,7 @@ type AI struct {
 	MaxStates int
 	budget    int
 	taintRoots map[string]bool
+	forks      []outcome
 	nilSafeExtra map[string]bool
 }
 
